@@ -1059,8 +1059,14 @@ class Process(StateMachine, persistence.Savable, metaclass=ProcessStateMachineMe
                         f'Full Traceback:\n{tb_str}'
                     ) from exc
                 else:
-                    while asyncio.isfuture(result):
-                        result = await result
+                    try:
+                        while asyncio.isfuture(result):
+                            result = await result
+                    except asyncio.CancelledError:
+                        # The action was cancelled (e.g. a pending pause superseded by play or kill): the caller
+                        # gets a cancelled reply, like a direct caller holding the action future would
+                        kiwi_future.cancel()
+                        return
 
                     kiwi_future.set_result(result)
 
